@@ -979,14 +979,16 @@ impl<K: Elem, V: Elem> MapDrv<K, V> {
         let bh = self.bh;
         oplog!(ctx, "raw_entry_mut how{} ({},g{}) sub{} val {},g{}", how, id, kg, sub, vv, vg);
         // a vacant raw entry may be filled with ANY key: the stored key is hashed on its own, the probed one is forgotten
-        let other: Option<u32> = if sub >= 7 && m.is_none() && self.lawful {
+        let other: Option<u32> = if ((sub >= 7 && m.is_none()) || (sub == 4 && m.is_some() && !keep)) && self.lawful {
             let u = self.universe.max(1);
             let start = rng.below(u as u64) as u32;
             (0..u.min(64)).map(|d| (start + d) % u).find(|x| *x != id && self.model.get(*x).is_none())
         } else {
             None
         };
-        let other_key = other.map(|o| self.mk_k(o));
+        let mut other_key = other.map(|o| self.mk_k(o));
+        let mut other_key_for_vacated = if sub == 4 { other_key.take() } else { None };
+        let other_kg = other_key.as_ref().or(other_key_for_vacated.as_ref()).map(|x| x.1).unwrap_or(0);
         let b = self.map.raw_entry_mut();
         let e = match how {
             0 => b.from_key(&KeyRef(id)),
@@ -1002,7 +1004,6 @@ impl<K: Elem, V: Elem> MapDrv<K, V> {
         let mut removed = false;
         let mut newkey = false;
         let mut inserted_other = false;
-        let other_kg = other_key.as_ref().map(|x| x.1).unwrap_or(0);
         match e {
             RawEntryMut::Occupied(mut o) => {
                 occupied = true;
@@ -1046,6 +1047,16 @@ impl<K: Elem, V: Elem> MapDrv<K, V> {
                             (RawEntryMut::Occupied(_), true) => set = true,
                             (RawEntryMut::Vacant(_), false) => removed = true,
                             _ => crate::viol!("raw replace_entry_with: wrong variant (keep={})", keep),
+                        }
+                        // the vacant entry left behind by a removal may be filled with any key, too
+                        if let (RawEntryMut::Vacant(ve), Some((k2, _))) = (e2, other_key_for_vacated.take()) {
+                            let id2 = other.unwrap();
+                            let v2 = V::make(vv, vg);
+                            let (a, b) = ve.insert(k2, v2);
+                            a.check();
+                            b.check();
+                            crate::check!(a.id() == id2, "raw vacant entry (left by replace_entry_with) filled with key {}: the returned key reference shows {}", id2, a.id());
+                            inserted_other = true;
                         }
                     }
                     5 => {
